@@ -12,7 +12,7 @@ for D in $DIRS; do
   git -C /repo worktree remove --force $WT 2>/dev/null
   git -C /repo worktree add -q --detach $WT HEAD || continue
   git -C $WT apply $D/patch.diff 2>/dev/null || { echo "$id: does not apply"; git -C /repo worktree remove --force $WT; continue; }
-  for i in $(seq -w 1 20); do echo "$id C$i" >> $JOBS; done
+  for i in ${PROPS:-$(seq -w 1 20)}; do echo "$id C$i" >> $JOBS; done
 done
 run_one() {
   id=$1; p=$2
